@@ -30,8 +30,11 @@ impl Eq for C64 {}
 
 impl Hash for C64 {
   fn hash<H: Hasher>(&self, state: &mut H) {
-    self.0.re.to_bits().hash(state);
-    self.0.im.to_bits().hash(state);
+    // 0.0 and -0.0 compare equal, so they must hash alike
+    let re = if self.0.re == 0.0 { 0.0 } else { self.0.re };
+    let im = if self.0.im == 0.0 { 0.0 } else { self.0.im };
+    re.to_bits().hash(state);
+    im.to_bits().hash(state);
   }
 }
 
